@@ -43,12 +43,47 @@ var c10Features = []docFeature{
 	{"cdata-end-and-xml-meta", "X-XML", "a ]]> b & c < d > e \" f '", nil},
 	{"empty-value", "X-EMPTY", "", nil},
 	{"leading-trailing-space", "X-SPACE", "  padded  ", nil},
+	// shapes of the calendar as a whole ("any iCalendar content"): the transport must not judge them
+	{"cal-method", "@method", "PUBLISH", nil},
+	{"cal-two-uids", "@second-event", "uid-2", nil},
+	{"cal-mixed-types", "@todo", "uid-1", nil},
+	{"cal-timezone-first", "@timezone", "Europe/Test", nil},
 }
 
 func c10Calendar(fs []docFeature) *ical.Calendar {
 	cal := harness.SampleCalendar("uid-1", "base")
 	ev := cal.Children[0]
 	for _, f := range fs {
+		switch f.Prop {
+		case "@method":
+			cal.Props.SetText(ical.PropMethod, f.Value)
+			continue
+		case "@second-event", "@todo":
+			name := ical.CompEvent
+			if f.Prop == "@todo" {
+				name = ical.CompToDo
+			}
+			c := ical.NewComponent(name)
+			c.Props.SetText(ical.PropUID, f.Value)
+			st := ical.NewProp(ical.PropDateTimeStamp)
+			st.Value = "20200101T000000Z"
+			c.Props.Set(st)
+			cal.Children = append(cal.Children, c)
+			continue
+		case "@timezone":
+			tz := ical.NewComponent(ical.CompTimezone)
+			tz.Props.SetText(ical.PropTimezoneID, f.Value)
+			std := ical.NewComponent(ical.CompTimezoneStandard)
+			for _, kv := range [][2]string{{ical.PropDateTimeStart, "19701025T030000"}, {ical.PropTimezoneOffsetFrom, "+0200"}, {ical.PropTimezoneOffsetTo, "+0100"}} {
+				q := ical.NewProp(kv[0])
+				q.Value = kv[1]
+				std.Props.Set(q)
+			}
+			tz.Children = append(tz.Children, std)
+			cal.Children = append([]*ical.Component{tz}, cal.Children...)
+			ev = cal.Children[1]
+			continue
+		}
 		p := ical.NewProp(f.Prop)
 		p.Value = f.Value
 		for k, v := range f.Params {
@@ -63,6 +98,9 @@ func c10Card(fs []docFeature) vcard.Card {
 	c := harness.SampleCard("base")
 	for _, f := range fs {
 		name := f.Prop
+		if strings.HasPrefix(name, "@") {
+			continue // calendar shapes have no vCard counterpart
+		}
 		switch name {
 		case "SUMMARY":
 			name = "NOTE"
@@ -671,6 +709,9 @@ type c10DCase struct {
 	Split    bool        `json:"split_propstats"`
 	Extras   bool        `json:"unknown_extra_props"`
 	Feats    int         `json:"feature_set"`
+	// Missing: which optional value the SECOND object lacks: 0 none, 1 getlastmodified absent, 2 getetag absent,
+	// 3 getlastmodified reported under 404, 4 getetag reported under 404. The other values must still arrive.
+	Missing int `json:"missing,omitempty"`
 }
 
 func httpDate(t time.Time) string { return t.UTC().Format(http.TimeFormat) }
@@ -735,10 +776,30 @@ func c10JudgeD(c c10DCase, sets [][]docFeature) (clause, detail string) {
 	ms := indep.E(indep.DAV, "multistatus")
 	switch c.Call {
 	case "multiget", "sync":
-		for _, o := range objs {
-			props := []*indep.El{indep.E(indep.DAV, "getetag").T(strconv.Quote(o.etag)), indep.E(indep.DAV, "getlastmodified").T(httpDate(mt)), indep.E(ns, dataName).T(o.data)}
+		for oi, o := range objs {
+			etagEl, modEl := indep.E(indep.DAV, "getetag").T(strconv.Quote(o.etag)), indep.E(indep.DAV, "getlastmodified").T(httpDate(mt))
+			props := []*indep.El{etagEl, modEl, indep.E(ns, dataName).T(o.data)}
+			var missing *indep.El
+			if oi == 1 && c.Missing != 0 {
+				if c.Missing == 1 || c.Missing == 3 {
+					props = []*indep.El{etagEl, indep.E(ns, dataName).T(o.data)}
+					missing = indep.E(indep.DAV, "getlastmodified")
+				} else {
+					props = []*indep.El{modEl, indep.E(ns, dataName).T(o.data)}
+					missing = indep.E(indep.DAV, "getetag")
+				}
+			}
 			r := indep.E(indep.DAV, "response", indep.E(indep.DAV, "href").T(indep.EscapeHref(o.path)))
-			r.Add(propstatsOrd(c.Split, props, c.Extras, c.BadFirst)...)
+			ps := propstatsOrd(c.Split, props, c.Extras, c.BadFirst)
+			if missing != nil && c.Missing >= 3 {
+				bad := indep.E(indep.DAV, "propstat", indep.E(indep.DAV, "prop", missing), indep.E(indep.DAV, "status").T("HTTP/1.1 404 Not Found"))
+				if c.BadFirst {
+					ps = append([]*indep.El{bad}, ps...)
+				} else {
+					ps = append(ps, bad)
+				}
+			}
+			r.Add(ps...)
 			ms.Add(r)
 		}
 		if c.Call == "sync" {
@@ -760,6 +821,19 @@ func c10JudgeD(c c10DCase, sets [][]docFeature) (clause, detail string) {
 		ms.Add(r)
 	}
 	cap := &harness.Capture{Status: 207, RespCT: "application/xml; charset=utf-8", Resp: string(indep.Render(ms, c.Style))}
+	// what the second object is expected to carry
+	wantTag := func(i int) string {
+		if i == 1 && (c.Missing == 2 || c.Missing == 4) {
+			return ""
+		}
+		return objs[i].etag
+	}
+	wantMT := func(i int) time.Time {
+		if i == 1 && (c.Missing == 1 || c.Missing == 3) {
+			return time.Time{}
+		}
+		return mt
+	}
 	if c.Kind == "caldav" {
 		cl, _ := caldav.NewClient(cap, "http://h/")
 		switch c.Call {
@@ -769,7 +843,7 @@ func c10JudgeD(c c10DCase, sets [][]docFeature) (clause, detail string) {
 				return "client-refused-conformant-document", fmt.Sprintf("%d objects, %v", len(l), err)
 			}
 			for i, o := range l {
-				if d := sameObj("caldav", o.Path, objs[i].path, o.ETag, objs[i].etag, o.ModTime, mt); d != "" {
+				if d := sameObj("caldav", o.Path, objs[i].path, o.ETag, wantTag(i), o.ModTime, wantMT(i)); d != "" {
 					return "client-metadata", d
 				}
 				if !reflect.DeepEqual(o.Data.Component, wantCal.Component) {
@@ -793,7 +867,7 @@ func c10JudgeD(c c10DCase, sets [][]docFeature) (clause, detail string) {
 			return "client-refused-conformant-document", fmt.Sprintf("%d objects, %v", len(l), err)
 		}
 		for i, o := range l {
-			if d := sameObj("carddav", o.Path, objs[i].path, o.ETag, objs[i].etag, o.ModTime, mt); d != "" {
+			if d := sameObj("carddav", o.Path, objs[i].path, o.ETag, wantTag(i), o.ModTime, wantMT(i)); d != "" {
 				return "client-metadata", d
 			}
 			if !reflect.DeepEqual(o.Card, wantCard) {
@@ -825,7 +899,7 @@ func c10JudgeD(c c10DCase, sets [][]docFeature) (clause, detail string) {
 			return "sync-updated", fmt.Sprint(len(sr.Updated))
 		}
 		for i, o := range sr.Updated {
-			if d := sameObj("carddav", o.Path, objs[i].path, o.ETag, objs[i].etag, o.ModTime, mt); d != "" {
+			if d := sameObj("carddav", o.Path, objs[i].path, o.ETag, wantTag(i), o.ModTime, wantMT(i)); d != "" {
 				return "sync-metadata", d
 			}
 		}
@@ -998,6 +1072,15 @@ func init() {
 								if ex {
 									dcases = append(dcases, c10DCase{Kind: kind, Call: call, Style: st, Split: split, Extras: ex, Feats: f, BadFirst: true})
 								}
+								if call != "find" && (f == si) {
+									// the second object lacks one optional value (absent / reported under 404, before or after)
+									for m := 1; m <= 4; m++ {
+										dcases = append(dcases, c10DCase{Kind: kind, Call: call, Style: st, Split: split, Extras: ex, Feats: f, Missing: m})
+										if m >= 3 {
+											dcases = append(dcases, c10DCase{Kind: kind, Call: call, Style: st, Split: split, Extras: ex, Feats: f, Missing: m, BadFirst: true})
+										}
+									}
+								}
 							}
 						}
 					}
@@ -1015,7 +1098,7 @@ func init() {
 				s.Sample(c)
 			}
 			if clause != "" {
-				s.Violate(engine.Violation{Sig: fmt.Sprintf("C10/%s/%s.%s/ns%d.split=%v.extras=%v.badfirst=%v", clause, c.Kind, c.Call, c.Style.NS, c.Split, c.Extras, c.BadFirst), Clause: clause, Index: base + int64(i), Kind: "C10-D", Case: c, Expected: "client returns the values the document holds", Observed: detail})
+				s.Violate(engine.Violation{Sig: fmt.Sprintf("C10/%s/%s.%s/ns%d.split=%v.extras=%v.badfirst=%v", clause, c.Kind, c.Call, c.Style.NS, c.Split, c.Extras, c.BadFirst)+map[bool]string{true: fmt.Sprintf(".missing=%d", c.Missing)}[c.Missing != 0], Clause: clause, Index: base + int64(i), Kind: "C10-D", Case: c, Expected: "client returns the values the document holds", Observed: detail})
 			}
 		})
 	})
